@@ -512,3 +512,35 @@ package server
 //@   ensures local-a-connection-comes-from-a-route-and-carries-the-link: conn != nil ==> (err == nil && looked && lerr == nil && cerr == nil && nroutes >= 1 && conn == dialed && sent)
 //@   ensures local-routes-but-no-reachable-client-is-not-connected: (looked && lerr == nil && cerr == nil && nroutes >= 1 && conn == nil) ==> err == tun.ErrTunnelClientNotConnected
 //@   loop route: invariant idx: -1 <= rangeindex && rangeindex < len(ret.routes) && nroutes == len(ret.routes) && looked && lerr == nil && cerr == nil
+
+// ---- C27 (remote half): the node that receives a PROXY stream answers with the outcome of ITS attempt to reach the
+// client, after that attempt: an error status and a closed stream when the route could not be read, names another
+// server or the client could not be dialled; OK and a pipe to exactly the dialled client connection otherwise. The
+// status is sent once, last, from the values the function ends with.
+//@ func (s *Server) handleProxyConn(ctx context.Context, delegation *transport.StreamDelegate)
+//@   safety off
+//@   opt frame=off
+//@   ghost rerr error = nil
+//@   ghost received int = 0
+//@   ghost dials int = 0
+//@   ghost derr error = nil
+//@   ghost dconn net.Conn = nil
+//@   ghost sent int = 0
+//@   ghost serr error = nil
+//@   ghost closed int = 0
+//@   ghost piped int = 0
+//@   ghost wrong bool = false
+//@   at after call BoundedReceive#1: ghost rerr := callresult
+//@   at after call BoundedReceive#1: ghost received := received + 1
+//@   at call DialStream#*: assert the-client-is-dialled-directly-only-for-a-route-that-names-this-server: received == 1 && rerr == nil && dials == 0 && route.GetTunnelDestination().GetAddress() == s.TunnelTransport.Identity().GetAddress() && callarg1 == route.GetClientDestination() && callarg2 == protocol.Stream_DIRECT
+//@   at after call DialStream#*: ghost dconn := callresult0
+//@   at after call DialStream#*: ghost derr := callresult1
+//@   at after call DialStream#*: ghost dials := dials + 1
+//@   at $1/call SendStatusProto#1: assert the-status-is-the-outcome-of-this-nodes-attempt-sent-after-it: sent == 0 && received == 1 && any(callarg0) == any(delegation) && callarg1 == err && ((rerr != nil) ==> callarg1 == rerr) && ((dials == 1) ==> callarg1 == derr) && ((rerr == nil && dials == 0) ==> callarg1 == tun.ErrDestinationNotFound)
+//@   at $1/call SendStatusProto#1: ghost serr := callarg1
+//@   at $1/call SendStatusProto#1: ghost sent := sent + 1
+//@   at $1/call Close#1: assert a-failed-attempt-closes-the-stream-after-reporting: sent == 1 && serr != nil
+//@   at $1/call Close#1: ghost closed := closed + 1
+//@   at $1/call Pipe#1: assert only-a-reached-client-is-piped-to-the-stream: sent == 1 && serr == nil && dials == 1 && derr == nil && any(callarg0) == any(delegation) && any(callarg1) == any(dconn)
+//@   at $1/call Pipe#1: ghost piped := piped + 1
+//@   ensures local-one-status-then-close-or-pipe: sent == 1 && ((serr != nil) ==> (closed == 1 && piped == 0)) && ((serr == nil) ==> (piped == 1 && closed == 0))
